@@ -117,6 +117,17 @@ def fam_c04(tier, rng):
             scs.append(default_scenario(jobs=[{"id": "j", "actor": "job", "script": ["raise"] * mx + [out, out, "ok"], "retries": mx}],
                                         actors={"job": {"variant": "dep", "policy": ["linear", 200]}},
                                         worker={"tasks_limit": 1, "messages_limit": 0, "grace_s": 0.5}, horizon_ms=15000))
+    # a forced retry takes the counter past the budget; the attempt it buys fails: that is the end of the chain (dead letter, or
+    # the next iteration of a recurring job), not the beginning of an endless one
+    for mx in (0, 1, 2):
+        for tail in (["raise", "raise"], ["timeout"], ["e_force_retry", "raise"]):
+            for rec_ in (None, 3000):
+                job = {"id": "j", "actor": "job", "script": ["raise"] * mx + ["e_force_retry"] + tail + ["raise"] * 3, "retries": mx,
+                       "timeout_s": 1 if "timeout" in tail else None}
+                if rec_:
+                    job["defer_by_ms"] = rec_
+                scs.append(default_scenario(jobs=[job], actors={"job": {"variant": "dep", "policy": ["linear", 100]}},
+                                            worker={"tasks_limit": 1, "messages_limit": 0, "grace_s": 0.5}, horizon_ms=9000))
     return scs
 
 
